@@ -346,10 +346,13 @@ def sources(spec, base, viol=None):
                     vbase = ('dawgie.Version'
                              if hit('value-base', alg=i, sv=j, val=k)
                              else 'dawgie.Value')
+                    ctor = ('    def __init__(self, content):'
+                            if hit('value-ctor-arg', alg=i, sv=j, val=k)
+                            else '    def __init__(self, content=None):')
                     bot += [
                         '',
                         f'class V_{i}_{j}_{k}({vbase}):',
-                        '    def __init__(self, content=None):',
+                        ctor,
                         '        dawgie.Value.__init__(self)',
                         '        self.content = content',
                     ]
@@ -376,7 +379,9 @@ def sources(spec, base, viol=None):
                         continue
                     key = val['name'] + ('.x' if hit('dotted-val', alg=i,
                                                     sv=j, val=k) else '')
-                    bot.append(f'        self[{key!r}] = V_{i}_{j}_{k}()')
+                    arg = ('0' if hit('value-ctor-arg', alg=i, sv=j, val=k)
+                           else '')
+                    bot.append(f'        self[{key!r}] = V_{i}_{j}_{k}({arg})')
                 svname = sv['name'] + ('.x' if hit('dotted-sv', alg=i, sv=j)
                                        else '')
                 bot += [
@@ -647,7 +652,8 @@ def violations(spec):
                     for k in ('dotted-sv', 'empty-sv', 'sv-base')]
             for k, _v in enumerate(sv['vals']):
                 out += [{'kind': kk, 'alg': i, 'sv': j, 'val': k}
-                        for kk in ('dotted-val', 'unpicklable', 'value-base')]
+                        for kk in ('dotted-val', 'unpicklable', 'value-base',
+                                   'value-ctor-arg')]
         for which, refs in (('_deps', a['inputs']), ('_fbs', a['feedback'])):
             for n, _r in enumerate(refs):
                 for k in _BAD_REF:
